@@ -16,6 +16,19 @@ hold for every radio after every SPI transaction, CE edge, arrival and sleep, st
 ask for it: the value an accessor returns always describes the radio **at the start of the
 transaction** (the chip clocks STATUS out while the command is clocked in).
 
+STALENESS (what is NOT claimed).  The cached accessors `pipe`, `tx_full`, `irq_dr`, `irq_ds`, `irq_df`
+describe the radio's actual state only on a fresh cache (`C10_cached`, hypothesis `s.Fresh`), i.e. right
+after `update()` (or `available()`, which calls it) on an idle radio.  After a transaction that itself
+CHANGES the radio — `read()`, `clear_status_flags()`, `flush_rx()`, `flush_tx()` — the cache holds the
+STATUS byte from BEFORE the change and the cached accessors are STALE until the next `update()`:
+`irq_dr` stays True after the only payload was read / after RX_DR was cleared, `tx_full` stays True after
+`flush_tx()`, `pipe` still names the pipe of a payload `flush_rx()` has discarded
+(`C10_stale_after_flush`: `pipe = some p` on an empty FIFO).  (`read()` is the partial exception for
+`pipe` only: the STATUS byte it caches is clocked out by the flag-clearing write AFTER the pop, so `pipe`
+shows the next payload, see `C10_read`; `irq_dr` is stale there too.)  The property text says "after
+update() or any other transaction … describe the radio's actual state"; for these four calls that holds
+only after one more `update()` — candidate property-vs-code finding, not modelled away.
+
 Ground truth (`Nrf.Spec.Link`): functions of the radio's FIFOs / flags only.
 -/
 import NrfProofs.C10Steps
@@ -170,7 +183,8 @@ theorem C10_last_tx_arc (s : DrvState) (hw : s.Wf) (ha : s.rad.arcCnt ≤ 15) :
 example : ∃ s : DrvState, s.Wf ∧ s.rad.arcCnt = 7 ∧ s.rad.Idle :=
   ⟨{ d := {}, w := { radios := [{ arcCnt := 7 }], busyUntil := [0] } }, by decide, by decide, by decide⟩
 
-/-- `read()` with a payload waiting, on an idle radio: returns exactly the head payload; the radio
+/-- `read()` with a payload waiting, on an idle radio (afterwards the cached `irq_dr` is STALE — still
+    the pre-read RX_DR — until the next `update()`; see the file header): returns exactly the head payload; the radio
     afterwards is the radio before with exactly that payload popped and exactly RX_DR cleared
     (TX_DS, MAX_RT, the TX FIFO, every register and every other payload are untouched — the record
     update says so; `lastByte` is the model's memory of the last byte clocked out); nothing else in
@@ -216,7 +230,9 @@ theorem C10_read_empty (s : DrvState) (hw : s.Wf) (hi : s.rad.Idle) (hf : s.rad.
 example : ∃ s : DrvState, s.Wf ∧ s.rad.Idle ∧ s.rad.rxFifo = [] :=
   ⟨{ d := {}, w := World.fresh 2 }, by decide, by decide, rfl⟩
 
-/-- `clear_status_flags(a, b, c)`: exactly the requested latched events are cleared — the radio
+/-- `clear_status_flags(a, b, c)` (afterwards the cache holds the STATUS byte from BEFORE the clearing —
+    last conjunct — so `irq_dr` / `irq_ds` / `irq_df` are STALE until the next `update()`): exactly the
+    requested latched events are cleared — the radio
     afterwards is the radio before with `flags` masked, nothing else in it or in the world changes —
     provided the radio is idle *after* the write.  (Clearing MAX_RT while CE is high in TX mode with
     the failed payload still queued is not idle: the chip retransmits at once — that is `resend()`,
@@ -270,7 +286,8 @@ example : ∃ s : DrvState, s.Wf ∧ s.rad.flags = 0x70 ∧
    by decide, rfl, by decide⟩
 
 /-- `flush_rx()` on an idle radio empties exactly the RX FIFO: TX FIFO, flags, registers, the rest
-    of the world are untouched; the cached status byte is the one from before the command. -/
+    of the world are untouched; the cached status byte is the one from before the command, so the cached
+    accessors (`pipe`, `irq_dr`, …) are STALE until the next `update()` (`C10_stale_after_flush`). -/
 theorem C10_flush_rx (s : DrvState) (hw : s.Wf) (hi : s.rad.Idle) :
     (exec flushRx s).1 = .ok () ∧
     (exec flushRx s).2.rad = { s.rad with rxFifo := [] } ∧
@@ -285,7 +302,8 @@ theorem C10_flush_rx (s : DrvState) (hw : s.Wf) (hi : s.rad.Idle) :
   exact ⟨rfl, hr, ho, hd⟩
 
 /-- `flush_tx()` — on any radio, idle or not (an empty TX FIFO cannot transmit) — empties exactly
-    the TX FIFO. -/
+    the TX FIFO.  The cached status byte is the one from before the command: `tx_full` is STALE (still
+    True after flushing a full FIFO) until the next `update()`. -/
 theorem C10_flush_tx (s : DrvState) (hw : s.Wf) :
     (exec flushTx s).1 = .ok () ∧
     (exec flushTx s).2.rad = { s.rad with txFifo := [] } ∧
@@ -361,10 +379,54 @@ theorem C10_irq (a b c : Bool) (s : DrvState) (hw : s.Wf) (hi : s.rad.Idle) :
 example : ∃ s : DrvState, s.Wf ∧ s.rad.Idle ∧ s.rad.flags = 0x50 ∧ s.rad.config = 0x0E :=
   ⟨{ d := {}, w := { radios := [{ flags := 0x50, config := 0x0E }], busyUntil := [0] } }, by decide, by decide, rfl, rfl⟩
 
+/-- **Staleness after `flush_rx()`, stated precisely.**  From any idle radio with a payload of pipe
+    `e.pipe` at the head of its RX FIFO (cache fresh or not): after `flush_rx()` the RX FIFO is empty —
+    the true answer is "no pipe" (`nextPipe = none`) — but the cached accessor `pipe` returns
+    `some e.pipe`, the pipe of a payload that no longer exists; only after the next `update()` does
+    `pipe` return `None`.  (The same mechanism makes `irq_dr` / `tx_full` stale after `read()`,
+    `clear_status_flags()`, `flush_tx()`: each caches the STATUS byte from before its own effect.) -/
+theorem C10_stale_after_flush (s : DrvState) (hw : s.Wf) (hr : s.rad.RxWf) (hi : s.rad.Idle)
+    (e : RxEntry) (rest : List RxEntry) (hf : s.rad.rxFifo = e :: rest) :
+    let s' := (exec flushRx s).2
+    nextPipe s'.rad = none ∧
+    exec pipe s' = (.ok (some e.pipe), s') ∧
+    exec pipe (exec update s').2 = (.ok none, (exec update s').2) := by
+  intro s'
+  obtain ⟨_, h2, _, h4⟩ := C10_flush_rx s hw hi
+  have hw0 : (exec flushRx s).2.Wf := by rw [exec_flushRx]; exact (spiStep_wf _ _).2 hw
+  have hs' : s' = (exec flushRx s).2 := rfl
+  clear_value s'
+  rw [← hs'] at h2 h4 hw0
+  have h2' : s'.rad = { s.rad with rxFifo := [] } := h2
+  have h4' : s'.d = { s.d with status := s.rad.status } := h4
+  have hpipe : e.pipe ≤ 5 := (hr e (by rw [hf]; exact List.mem_cons_self)).1
+  have hw' : s'.Wf := hw0
+  have hi' : s'.rad.Idle := by
+    rw [h2']; unfold Radio.Idle; rw [← hi]; exact Radio.txReady_congr _ _ rfl rfl rfl rfl
+  have hr' : s'.rad.RxWf := by intro x hx; rw [h2'] at hx; cases hx
+  refine ⟨by rw [h2']; rfl, ?_, ?_⟩
+  · have hp := Radio.status_pipe s.rad hr
+    unfold pipe
+    simp only [exec_bind, exec_getD, exec_pure, rxPipeField, h4', hp]
+    unfold Radio.rxPNo
+    simp [hf, hpipe]
+  · obtain ⟨_, hd, hrest⟩ := C10_update s' hw'
+    obtain ⟨hrad, _, hfresh⟩ := hrest hi'
+    have hc := (C10_cached (exec update s').2 (by rw [hrad]; exact hr') hfresh).1
+    rw [hc, hrad, h2']
+    rfl
+
+example : ∃ (s : DrvState) (e : RxEntry) (rest : List RxEntry), s.Wf ∧ s.rad.RxWf ∧ s.rad.Idle ∧
+    s.rad.rxFifo = e :: rest ∧ e.pipe = 3 :=
+  ⟨{ d := {}, w := { radios := [{ rxFifo := [{ pipe := 3, data := [1, 2] }], flags := 0x40 }], busyUntil := [0] } },
+   _, _, by decide, by decide, by decide, rfl, rfl⟩
+
 /-- **The side conditions are invariants of all histories.**  In every world reachable from reset
     radios by any finite sequence of SPI transactions (any bytes, on any radio), CE edges, arrivals
-    (`inject`), sleeps and changes of the fault pattern — hence after any sequence of calls of any
-    driver methods on any number of objects, interleaved with any traffic — every radio satisfies
+    (`inject`), sleeps and changes of the fault pattern — PRIMITIVES ONLY: the theorem is about
+    sequences of these world steps; that every driver method is such a sequence is the content of
+    `C10_reachable_drv` (four primitives) plus the prose remark that methods are compositions of them,
+    no theorem composes it for a method or a sequence of method calls — every radio satisfies
     `RxWf`, is `Idle`, holds at most 3 payloads per FIFO and has ARC_CNT ≤ 15.  (`World.Step`,
     `World.Reachable` are defined in `NrfProofs/TrafficInv.lean`.) -/
 theorem C10_reachable (w : World) (h : World.Reachable w) (j : Nat) (hj : j < w.radios.length) :
@@ -377,9 +439,10 @@ theorem C10_reachable (w : World) (h : World.Reachable w) (j : Nat) (hj : j < w.
 example : ∃ w : World, World.Reachable w ∧ w.radios.length = 2 ∧ (w.radio 0).ce = true :=
   ⟨_, .step (.fresh 2 true) (.setCE _ 0 true (by decide)), by decide, by decide⟩
 
-/-- the driver's three primitives (`_spi.write_readinto`, `ce_pin.value = v`, `time.sleep`) are
-    steps: every method of `Rf24` — a composition of these and of shadow updates — keeps the world
-    reachable -/
+/-- PRIMITIVES ONLY: the driver's three primitives (`_spi.write_readinto`, `ce_pin.value = v`,
+    `time.sleep`) and a shadow update are steps.  Every method of `Rf24` is a composition of these, so
+    it keeps the world reachable — that composition is prose, not a theorem (no induction over the
+    methods / over histories of method calls is stated here). -/
 theorem C10_reachable_drv (s : DrvState) (hw : s.Wf) (h : World.Reachable s.w) :
     (∀ out, World.Reachable (exec (xfer out) s).2.w) ∧ (∀ v, World.Reachable (exec (setCE v) s).2.w) ∧
     (∀ n, World.Reachable (exec (sleepNs n) s).2.w) ∧ (∀ f, World.Reachable (exec (modD f) s).2.w) :=
